@@ -116,14 +116,16 @@ def policy_ok(pin):
 
 
 class AdminSimDevice(SimDevice):
-    def __init__(self, platform="ledger", mode=MODE_BOOT, seed=1):
+    def __init__(self, platform="ledger", mode=MODE_BOOT, seed=1, with_keys=True):
         super().__init__(platform=platform, mode=mode, seed=seed)
-        # keys must be curve points: admin/pubkeys.py re-parses them
+        # keys must be curve points: admin/pubkeys.py re-parses them (skipped for runs that never
+        # ask for a key: key generation dominates the cost of the short runs)
         self.key_scalars = {}
         for name, pb in PATH_BYTES.items():
             k = int.from_bytes(self.rnd.bytes(32), "big") % (N - 1) + 1
             self.key_scalars[pb] = k
-            self.keys[pb] = pub_uncompressed(k)
+            if with_keys:
+                self.keys[pb] = pub_uncompressed(k)
         self.pinbuf = bytearray(MAX_PIN_LENGTH + 2)
         self.host_seed = bytearray(SEED_LEN)
         self.host_seed_set = set()
